@@ -12,7 +12,7 @@ LEVEL = "proof"
 PROPS = "Walk/Props_C08.v"
 COQ_FILES = wc.COQ_FILES + ["Walk/Perm.v", "Walk/SortProofs.v", "Walk/PermProofs.v", "Walk/MultiProofs.v", "Walk/Props_C08.v"]
 THEOREMS = ["walk_perm_invariant", "cmp_packages_total_preorder", "sorted_output_canonical", "sorted_statuses_canonical",
-            "multiroot_duplicates_refuted", "multiroot_duplication_law", "multiroot_is_union_on_D"]
+            "sorted_findings_canonical", "multiroot_is_union"]
 
 META = {
     "technique": "Coq proof over all trees and all re-listings (mutual induction over the tree-permutation relation on the pure "
@@ -22,15 +22,13 @@ META = {
     "level_text": "Theorems: walk_perm_invariant (for every tree and every re-listing of every directory at every depth: same multiset "
                   "of Extract calls and packages, same plugin statuses up to the order of failure items; fault-free trees, no limit/"
                   "cancel), sorted_output_canonical + cmp_packages_total_preorder (sortResults emits a CmpPackages-sorted list whose "
-                  "sequence of sort keys depends on the multiset only), sorted_statuses_canonical. The multi-root sentence is REFUTED "
-                  "for the current code (multiroot_duplicates_refuted, known finding); what the loop reports is characterised for any "
-                  "number of roots (multiroot_duplication_law) and the union statement is proved on D = every root but the last yields "
-                  "no package (multiroot_is_union_on_D). Go map-iteration order: each generated case is run three times and must give "
+                  "sequence of sort keys depends on the multiset only), sorted_statuses_canonical. sorted_findings_canonical (findings sorted by reference, then extra). filesystem.Run over any number of roots reports exactly the union of the single-root runs and one status per plugin (multiroot_is_union, full statement: the duplication defect was repaired in /repo commit 0811a249, its witness is in the regression corpus). Go map-iteration order: each generated case is run three times and must give "
                   "the identical observation (search, not proof).",
     "level_note": "Trusted: Coq kernel + vm_compute; harness (listing order per directory is chosen by the PRNG and given to the model); "
                   "slices.SortFunc is modelled as insertion sort - ties under CmpPackages are packages with identical sort keys, "
                   "so the observable key sequence is the same for any correct sort; plugin status sort is by name only (ties when roots "
-                  "duplicate statuses: <= 12 elements, where pdqsort is insertion sort). Findings and detectors are outside this area.",
+                  "duplicate statuses: <= 12 elements, where pdqsort is insertion sort). Findings come from fake detectors given to scalibr.Scan; "
+                  "ties under cmpFindings carry identical (reference, extra) keys.",
     "design_ref": "DESIGN.md section 5 C08",
 }
 
